@@ -148,6 +148,31 @@ fn faults(ctx: &mut Ctx, e: &Envelope, comp: &Envelope, rng: &mut crate::rng::Rn
         expect_reject_or_same(ctx, &env_bytes(&f), e, "misdeclared-content");
         expect_reject_as_subject(ctx, &env_bytes(&f), e, "misdeclared-content");
     }
+    // a payload whose leaf uses a spelling that the CBOR decoder tolerates but that is not the deterministic encoding
+    // of the value it decodes to (a single-precision float holding a negative integer), declared under the SHA-256 of
+    // those raw item bytes: whatever uncompress returns must carry the digest it declares - so this is refused
+    for raw_item in [&[0xfau8, 0xcf, 0x80, 0x00, 0x00][..], &[0xfa, 0xd7, 0x7f, 0xe0, 0x80][..], &[0xfb, 0xc1, 0xe0, 0x00, 0x00, 0x00, 0x20, 0x00, 0x00][..]] {
+        use sha2::{Digest as _, Sha256};
+        let mut payload = vec![0xd8, 0xc8, 0xd8, 0xc9];
+        payload.extend_from_slice(raw_item);
+        let declared: [u8; 32] = Sha256::digest(raw_item).into();
+        let forged = Compressed::from_uncompressed_data(payload, Some(Digest::from_data(declared)));
+        if let Ok(f) = Envelope::try_from(forged) {
+            ctx.eval();
+            ctx.count("fault_noncanonical-payload-under-raw-digest");
+            match trap::guard(|| f.uncompress()) {
+                Ok(Ok(u)) => {
+                    // accepted: then the result must really have that digest, also after a round trip through bytes
+                    let again = Envelope::try_from_cbor_data(env_bytes(&u)).map(|x| gen::root_digest(&x));
+                    if gen::root_digest(&u) != declared || again.ok() != Some(declared) {
+                        ctx.violation("corrupt-accepted/noncanonical-payload", "uncompress accepted a payload that does not hash to the declared digest (non-deterministic spelling declared under the hash of its raw bytes)", jhex(&f));
+                    }
+                }
+                Ok(Err(_)) => {}
+                Err(p) => ctx.violation(&format!("uncompress-panic/{}", p.signature()), &format!("{:?}", p), jhex(&f)),
+            }
+        }
+    }
     // near-miss declarations: the real content under a digest that differs in exactly one bit
     {
         let real = env_bytes(e);
